@@ -671,6 +671,19 @@ static std::string run_config(const Config & c, const Opts & o)
     if (o.ref) X.R.init(pre->second, PHASE);
     X.P.init(pre->second, PHASE);
   }
+  // the single-call form of the entry point (initialise and generate one event in one call, istart = 0) on objects of its own,
+  // before anything else is initialised: same event and same deviates as the model's single call
+  std::string onecall_diff;
+  bool onecall_done = false;
+  if (o.ref && !o.via_gen && pre == g_pre.end() && g_hist.find(c.key()) == g_hist.end() && (vx::SQ_LO == 0.0 && vx::SQ_HI == 1.0)) {
+    Ev r1 = X.R.one_call(c, PHASE);
+    if (r1.err == 0 && !r1.threw && !r1.horizon && !(c.dbd() && c.mode == 20 && c.level >= 1)) {
+      Ev p1 = PortSide::one_call(c, PHASE);
+      onecall_done = true;
+      onecall_diff = compare(c, r1, p1);
+      if (onecall_diff.empty() && r1.ndraws != p1.ndraws) onecall_diff = "deviates consumed " + std::to_string(r1.ndraws) + " vs " + std::to_string(p1.ndraws);
+    }
+  }
   PortSide histside;
   auto hi = g_hist.find(c.key());
   if (hi != g_hist.end()) {
@@ -688,7 +701,7 @@ static std::string run_config(const Config & c, const Opts & o)
   bool port_ok = (perr == 0);
   std::ostringstream js;
   js << "{\"config\":" << cfg_json(c) << ",\"pid\":" << (long)getpid() << ",\"key\":" << jstr(c.key()) << ",\"ref_available\":" << (X.R.available ? "true" : "false") << ",\"ref_ier\":" << ier
-     << ",\"port_err\":" << perr << ",\"port_init_what\":" << jstr(X.P.init_what);
+     << ",\"port_err\":" << perr << ",\"port_init_what\":" << jstr(X.P.init_what) << ",\"single_call_compared\":" << (onecall_done ? "true" : "false");
   // documented difference of the model (DESIGN C06): for mode 20 the Fortran silently coerces the
   // level to 0; README: quadruple beta "only to the ground state" -> the expected answer is reject
   bool model_accepts = X.R.available;
@@ -696,6 +709,8 @@ static std::string run_config(const Config & c, const Opts & o)
   if (o.ref && model_accepts != port_ok) {
     X.add_violation("ref", std::string("acceptance differs: model ") + (X.R.available ? "accepts" : "rejects") + ", port " + (port_ok ? "accepts" : "rejects"), Forced(), 1);
   }
+  if (onecall_done && !onecall_diff.empty() && onecall_diff.compare(0, 10, "MODELFAULT") != 0)
+    X.add_violation("ref", "single-call form (istart=0: initialise and generate one event): " + onecall_diff, Forced(), 1);
   if (port_ok) {
     if (o.ref && X.R.available) {
       if (X.R.init_draws != X.P.init_draws) X.add_violation("ref", "initialisation consumes " + std::to_string(X.R.init_draws) + " vs " + std::to_string(X.P.init_draws) + " deviates", Forced(), 1);
@@ -897,7 +912,7 @@ int main(int argc, char ** argv)
     else if (a == "--litdir") o.litdir = nxt();
     else if (a == "--calls") o.calls = true;
     else if (a == "--c-cap") o.c_cap = atol(nxt().c_str());
-    else if (a == "--nme-set") NME_SET = atoi(nxt().c_str()) ? 1 : 0;
+    else if (a == "--nme-set") NME_SET = std::max(0, std::min(2, atoi(nxt().c_str())));
     else if (a == "--dense") o.dense = atoi(nxt().c_str());
     else if (a == "--global-deadline") global_deadline = atof(nxt().c_str());
     else if (a == "--horizon") HORIZON = atol(nxt().c_str());
@@ -930,6 +945,7 @@ int main(int argc, char ** argv)
     std::getline(in, l);
     o.via_gen = (l.compare(0, 9, "generator") == 0);
     if (l.find("nme2") != std::string::npos) NME_SET = 1;
+    if (l.find("nme3") != std::string::npos) NME_SET = 2;
     {
       size_t q = l.find("squeeze=");
       if (q != std::string::npos && sscanf(l.c_str() + q + 8, "%lf,%lf", &vx::SQ_LO, &vx::SQ_HI) != 2) return 2;
